@@ -24,7 +24,8 @@ LEVEL_TEXT = ("Every pattern tree up to the size bound and every sequence up to 
               "patterns cannot hide. "
               "Exhaustive within the bounds, nothing sampled.")
 LEVEL_NOTE = ("Trusted: the Brzozowski-derivative reference (mc/refs/regex.py). Bounds: pattern size and atom alphabet as "
-              "recorded in the evidence; predicates are stateless Identity atoms (stateful predicates are C14/C15).")
+              "recorded in the evidence; predicates are stateless Identity atoms (stateful predicates are C14/C15)."
+              " Repeated with five further atom kinds (words/tuples, same printed label, client predicates, value-attribute items, token predicates of different classes), a shared-operand family and inputs of up to 2100 items.")
 BUILD_LIMIT_S = 20.0
 
 
